@@ -40,12 +40,15 @@ CHECKS.update({
  "C06": dict(text="Coq theorems: clearing/overwriting an element removes exactly the held elements reachable from it in the dependency graph (reach = reflexive-transitive closure, proved), "
                   "every read of a held element has an edge (coverage), other values and inputs untouched, clear() keeps inputs, assigned values are returned without running formulas, "
                   "set_value keeps the invariant under both recalc settings; after ANY operation (incl. reference changes, failed evaluations, recalculation) the user-assigned values are "
-                  "exactly those the operation itself sets/removes (Diff.ainp_step). Partial: the no-spurious-edge direction rests on correspondence + oracle.",
+                  "exactly those the operation itself sets/removes (Diff.ainp_step); the edges are exact (edge m->j iff j's formula called m, C06_edge_iff_read), so the discarded set is "
+                  "precisely the set of true dependents.",
              note=EXEC_NOTE + "; defs_ok and s_reent=false hypotheses", technique="Coq proof (graph closure lemma + coverage invariant) + vm_compute correspondence + graph-descendant oracle", design="6/C06"),
- "C08": dict(text="Coq theorem (partial): in every reachable quiescent state graph item nodes = held elements, edges join graph nodes, inputs have no predecessors, every element read "
-                  "(cached callee, uncached cells passed through, reference read by attribute) is recorded as predecessor, uncached cells hold nothing. Converse inclusion and acyclicity "
-                  "are checked by correspondence and the reference-interpreter oracle only.",
-             note=EXEC_NOTE + "; defs_ok, s_reent=false, no OpSetRef in the proved histories", technique="Coq proof (coverage invariant Cov through push/hit/pop/rollback and edits) + vm_compute correspondence + reference-interpreter oracle", design="6/C08"),
+ "C08": dict(text="Coq theorems: in every state reached by any history of evaluations, cache hits, failed evaluations and edits (C02's hypotheses): graph item nodes = held elements, edges join graph nodes, "
+                  "inputs have no predecessors, uncached cells hold nothing; for every element holding a computed value the recorded predecessors are EXACTLY the reads of its formula by the "
+                  "reads-instrumented specification (every read recorded: coverage, sim2_all; every predecessor a read: exactness, ex_all/step_Exa - cached elements called directly or through "
+                  "uncached cells, the uncached cells passed through, references read by attribute in the reference graph); the graph is ACYCLIC (a read element is evaluated with strictly less "
+                  "fuel than its reader). Model tied to mx preds/succs/precedents on every run; reference-interpreter oracle.",
+             note=EXEC_NOTE + "; defs_ok, refn_ok, s_reent=false hypotheses in the proved histories; precedents() of references read by name is checked by correspondence (cov_rd RName) only", technique="Coq proof (coverage invariant Cov and exactness invariant Exa through push/hit/pop/rollback and every edit; infinite-descent argument for acyclicity) + vm_compute correspondence + reference-interpreter oracle", design="6/C08"),
  "C09": dict(text="Coq theorems (partial): flipping the cached flag of any cells at any point keeps the invariant, so all later answers are the specification values; uncached cells hold no "
                   "values; invalidation reaches values computed through uncached cells (object-node coverage). Independence of the specification value from the flags is not mechanised "
                   "(None check: finding D33); checked by the two-flag-assignment differential on every run.",
